@@ -36,6 +36,7 @@ const W_OPEN_ENDED_PEER: u64 = 1 << 21;
 const W_WRITE_ZERO: u64 = 1 << 22;
 const W_COALESCED: u64 = 128;
 const W_CONN_ENDED: u64 = 1 << 23;
+const W_DEAD_FLOW_WITH_LOCAL_DATA: u64 = 1 << 24;
 
 #[derive(Default)]
 struct Local {
@@ -386,6 +387,7 @@ fn exec(sc: &Scn, render: bool) -> RunOutput {
     let mut peer_finished = false;
     let mut peer_reset = false;
     let mut conn_ended = false;
+    let mut dead_at: Option<usize> = None;
     let mut horizon = false;
     let mut log: Vec<String> = Vec::new();
     let mut established = false;
@@ -559,6 +561,22 @@ fn exec(sc: &Scn, render: bool) -> RunOutput {
         }
         if l.inn.len() > peer_sent.len() || l.inn[..] != peer_sent[..l.inn.len()] {
             push_viol(&mut viol, "relay.mux-to-local", format!("bytes written to the local side {} are not a prefix of what the peer sent {}", hx(&l.inn), hx(&peer_sent)));
+        }
+        // once the endpoint has processed the peer's Reset (or the end of the connection) the flow is dead: the bridge
+        // must not take any more bytes from the local side for it (they could only be lost)
+        if (peer_reset || conn_ended) && dead_at.is_none() {
+            if let Some(m) = w.mux[0].as_ref() {
+                if !m.verif_flow_digest().iter().any(|f| f.id == F) {
+                    dead_at = Some(l.consumed);
+                }
+            }
+        }
+        if let Some(c0) = dead_at {
+            if l.consumed > c0 {
+                push_viol(&mut viol, "relay.into-dead-flow", format!("the endpoint had processed the peer's {} with {c0} local byte(s) consumed; afterwards the bridge consumed {} more byte(s) from the local side for the dead flow instead of failing with BrokenPipe", if peer_reset { "Reset" } else { "end of the connection" }, l.consumed - c0));
+            } else if l.consumed < l.out.len() {
+                wit |= W_DEAD_FLOW_WITH_LOCAL_DATA;
+            }
         }
         if l.shutdown_ok && !(peer_finished || peer_reset || conn_ended) {
             push_viol(&mut viol, "halfclose.spurious-local-shutdown", "the local side was shut down although the peer has neither finished nor reset the stream".into());
@@ -767,11 +785,12 @@ pub fn run(args: &Args) -> Report {
         fault: 0,
         total_wall: Duration::from_secs(if thorough { 1500 } else { 50 }),
         max_execs_per_case: 20_000_000,
-        required_witnesses: W_PARTIAL_WRITE | W_PENDING | W_ERR_INJECTED | W_COMPLETED_OK | W_HALF_CLOSE_LOCAL_FIRST | W_HALF_CLOSE_PEER_FIRST | W_CREDIT_WAIT | W_COALESCED | W_STUCK_LOCAL_SINK | W_OPEN_ENDED_PEER | W_CONN_ENDED,
+        required_witnesses: W_PARTIAL_WRITE | W_PENDING | W_ERR_INJECTED | W_COMPLETED_OK | W_HALF_CLOSE_LOCAL_FIRST | W_HALF_CLOSE_PEER_FIRST | W_CREDIT_WAIT | W_COALESCED | W_STUCK_LOCAL_SINK | W_OPEN_ENDED_PEER | W_CONN_ENDED | W_DEAD_FLOW_WITH_LOCAL_DATA,
         adaptive: thorough,
         witness_names: &[
             ("partial_local_write", W_PARTIAL_WRITE),
             ("connection_ended_under_the_bridge", W_CONN_ENDED),
+            ("flow_dead_while_local_data_remains", W_DEAD_FLOW_WITH_LOCAL_DATA),
             ("pending_answer", W_PENDING),
             ("error_injected", W_ERR_INJECTED),
             ("bridge_completed_ok", W_COMPLETED_OK),
